@@ -106,9 +106,11 @@ type observation struct {
 func runSlip(text string, limit int) (o observation) {
 	scope := slip.NewScope()
 	n := 0
+	fired := false
 	scope.InterruptCheck = func() {
 		n++
-		if limit < n {
+		if limit < n && !fired {
+			fired = true // one shot: slip builds a condition from the panic by evaluating more functions
 			panic(stepSentinel)
 		}
 	}
@@ -117,7 +119,7 @@ func runSlip(text string, limit int) (o observation) {
 	o.trace = lisp.Trace()
 	o.err = err
 	if err != nil {
-		o.runaway = strings.Contains(err.Message, stepSentinel)
+		o.runaway = fired
 		return
 	}
 	if vs, ok := obj.(slip.Values); ok && len(vs) == 1 {
@@ -387,7 +389,10 @@ func exec(spec string) (res engine.Result) {
 		return
 	}
 	core, cv := minimise(t, prefix, 300)
-	res.Fail(fmt.Sprintf("core=%s kind=%s", core, cv.kind),
-		fmt.Sprintf("%s [reduced from %s: %s]", cv.describe(), spec[2:], v.describe()))
+	detail := cv.describe()
+	if core.String() != t.String() {
+		detail += fmt.Sprintf(" [reduced from %s: %s]", spec[2:], v.describe())
+	}
+	res.Fail(fmt.Sprintf("core=%s kind=%s", core, cv.kind), detail)
 	return
 }
